@@ -48,8 +48,20 @@ def run(chk):
     else:
         chk.violation("C16.accept", st, K.short(st), "!(not self._unsafe and is_ip_address(hostname))", "cookies from IP hosts are accepted by a safe jar")
     hn = norm.fn_defs(uc.node).defs.get("hostname", [])
-    if len(hn) == 1 and norm.raw(hn[0][1]) == "response_url.raw_host":
+    # every definition of the tested host derives from the response URL's host (itself, or a normalisation of it: lower-casing)
+    def _from_host(v):
+        t = norm.raw(v)
+        return t == "response_url.raw_host" or t in ("hostname.lower()", "response_url.raw_host.lower()", "(response_url.raw_host or '').lower()")
+    if hn and all(v is not None and _from_host(v) for _d, v in hn) and any(norm.raw(v).startswith("response_url.raw_host") or "response_url.raw_host" in norm.raw(v) for _d, v in hn):
         chk.ok("C16.accept", hn[0][0], "the tested host is the response URL's host")
+        lowered = any(".lower()" in norm.raw(v) for _d, v in hn)
+        fh = norm.fn_defs(fc.node).defs.get("hostname", [])
+        lowered_f = any(v is not None and ".lower()" in norm.raw(v) for _d, v in fh)
+        if lowered and lowered_f:
+            chk.ok("C16.match", hn[0][0], "both the storing and the filtering side lower-case the URL host (yarl keeps the case of a URL built with encoded=True)")
+        else:
+            chk.violation("C16.match", hn[0][0], K.short(hn[0][0]), "hostname = hostname.lower()  (update_cookies and filter_cookies)",
+                          "the jar compares host names case-sensitively: for `http://LOCALHOST:port/me` (a redirect target taken verbatim with requote_redirect_url=False) no cookie of `localhost` is sent, a Domain cookie from that URL is refused and host-only cookies are stored under a key the lower-case host never reads")
     else:
         chk.violation("C16.accept", uc, "hostname = response_url.raw_host", "", "the host used for acceptance is not the response host")
     # domain normalisation precedes the match test
@@ -218,6 +230,7 @@ def run(chk):
     identity_rules(chk, repo)
     setcookie_rules(chk, repo)
     hunt3_rules(chk, repo)
+    hunt4_rules(chk, repo)
 
 
 def identity_rules(chk, repo):
@@ -296,6 +309,51 @@ def identity_rules(chk, repo):
         else:
             chk.ok("C16.maxage", c, "the Max-Age value is bounded before it meets float arithmetic")
     chk.expect_count("C16.maxage", n_m, 1, "Max-Age conversions")
+
+
+def hunt4_rules(chk, repo):
+    """Rules written after the fourth defect hunt (F243-F246)."""
+    from sa.cfg import EXPLICIT, cfg_of
+    uc = repo.func(MOD, f"{CJ}.update_cookies")
+    # ---- C16.identity.copy: what the jar writes for a response (host, default path) goes into its own object ---------------------------------------
+    g = cfg_of(uc.node)
+    lp = next((l for l in ast.walk(uc.node) if isinstance(l, ast.For) and isinstance(l.target, ast.Tuple) and any(isinstance(e, ast.Name) and e.id == "cookie" for e in l.target.elts)), None)
+    writes = [n for n in g.nodes if n.kind == "stmt" and isinstance(n.ast, ast.Assign) and any(isinstance(t, ast.Subscript) and norm.raw(t.value) == "cookie" for t in n.ast.targets)]
+    fresh = [n for n in g.nodes if n.kind == "stmt" and isinstance(n.ast, ast.Assign) and any(isinstance(t, ast.Name) and t.id == "cookie" for t in n.ast.targets)]
+    heads = [n for n in g.nodes if lp is not None and n.ast is lp and n.kind == "for"]
+    if lp is None or not writes or not heads:
+        chk.analysis_error("C16.identity.copy: the cookie loop / attribute writes of update_cookies were not found")
+    else:
+        # a path on which `response_url` is false writes nothing response-specific into the object (no host, no default path to store)
+        p = K.find_path_edges(g, heads, lambda n: n in writes, lambda n: n in fresh,
+                              lambda n, t, k: k == "F" and n.kind == "test" and norm.raw(n.ast) == "response_url")
+        if p is None:
+            chk.ok("C16.identity.copy", writes[0].ast, "update_cookies(): with a response URL, the Domain / Path the jar fills in are written into a new Morsel (parsed, or a copy of the caller's)")
+        else:
+            chk.violation("C16.identity.copy", writes[0].ast, K.short(writes[0].ast), "elif response_url: cookie = cookie.copy()",
+                          "update_cookies() writes the response host and the default path into the caller's Morsel and stores that very object: applying the same SimpleCookie a second time (another URL, another jar) finds a Domain attribute, the host-only flag is dropped and `sid` is sent to sub-domains", path=g.fmt_path(p))
+    # ---- C16.accept (single label): a Domain attribute shared by unrelated hosts is not accepted from one of them ------------------------------------
+    stores = [s_ for s_, _b in K.stmts(uc, "self._cookies[$K][$N] = $C")]
+    cl = PC.pc(stores[0], raw=True) if stores else []
+    if any({(l.text, l.pos) for l in c} >= {("hostname", False), ("'.' not in domain", False)} or {(l.text, l.pos) for l in c} >= {("hostname", False), ("'.' in domain", True)} for c in cl):
+        chk.ok("C16.accept", stores[0], "a Domain attribute without an embedded dot is accepted only from that very host (RFC 6265 5.3 step 5: no `Domain=com`)")
+    else:
+        chk.violation("C16.accept", stores[0] if stores else uc, "self._cookies[...][name] = cookie", "if hostname and '.' not in domain and domain != hostname: continue",
+                      "`Set-Cookie: sid=x; Domain=com` from evil.com domain-matches (suffix + dot) and is stored: the cookie is then attached to requests for victim.com and bank.com - cross-site cookie planting / session fixation")
+    # ---- C16.setcookie ($-names): a `$`-prefixed name never clears or sets a flag attribute -------------------------------------------------------------
+    ps = repo.func("aiohttp/_cookie_helpers.py", "parse_set_cookie_headers")
+    dl = [i for i in ast.walk(ps.node) if isinstance(i, ast.If) and norm.raw(i.test) in ("key[0] == '$'", 'key[0] == "$"')]
+    if not dl:
+        chk.analysis_error("C16.setcookie: the `$`-name branch of parse_set_cookie_headers was not found")
+    else:
+        sets = [a for b_ in dl[0].body for a in ast.walk(b_) if isinstance(a, ast.Assign) and isinstance(a.targets[0], ast.Subscript) and norm.raw(a.targets[0].value) == "current_morsel"]
+        bad = [a for a in sets if not any(not l.pos and "_COOKIE_BOOL_ATTRS" in l.text for l in PC.units(PC.pc(a, stop=dl[0], raw=True)))
+               and not any(l.pos and "not in _COOKIE_BOOL_ATTRS" in l.text for l in PC.units(PC.pc(a, stop=dl[0], raw=True)))]
+        if sets and not bad:
+            chk.ok("C16.setcookie", sets[0], "`$`-prefixed names are applied as attributes only when the attribute takes a value ($Path, $Domain): `$Secure` is an unknown attribute")
+        else:
+            chk.violation("C16.setcookie", bad[0] if bad else dl[0], K.short(bad[0]) if bad else "$-name branch", "and attr_lower_key not in _COOKIE_BOOL_ATTRS",
+                          "`sid=secret; Secure; $Secure` stores secure='' (the flag is cleared: the cookie goes over http), and `b=2; $Partitioned=1` raises CookieError out of the client's response handling on Python 3.12")
 
 
 def hunt3_rules(chk, repo):
